@@ -243,7 +243,7 @@ func (w *c05world) refused(missing []string, how string, err error) {
 		show = show[:6]
 	}
 	w.c.Fail(cat, fmt.Sprintf("%s/%s/%s", cat, w.label, primary),
-		"%s: %s was refused (%v) although %d of %d usable units are held by nobody (live holders: %d certain, %d possible; model epoch +%d, grace %d); unobtainable units e.g. %v with histories %v",
+		"%s: %s was refused (%v) although %d of %d usable units are held by nobody (live holders: %d certain, at most %d counting those whose fate a store failure left open; model epoch +%d, grace %d); unobtainable units e.g. %v with histories %v",
 		w.label, how, err, len(missing), len(w.units), sure, maybe, w.epoch, w.grace, show, names)
 }
 
@@ -354,7 +354,7 @@ func (w *c05world) audit(after string) {
 				dir = "low"
 			}
 			c.Fail("miscount", fmt.Sprintf("miscount/%s/%s-allocated-%s/after-%s", w.label, st.Source, dir, after),
-				"%s: %s reports %d allocated after %s; live holders: %d certain, %d possible (model epoch +%d, grace %d) %s",
+				"%s: %s reports %d allocated after %s; live holders: %d certain, at most %d counting those whose fate a store failure left open (model epoch +%d, grace %d) %s",
 				w.label, st.Source, st.Alloc, after, sure, maybe, w.epoch, w.grace, w.describe())
 		}
 		if st.Total != len(w.units) {
@@ -460,6 +460,9 @@ func c05Run(c *sim.Ctx) {
 	cs := c.Case
 	d, err := newPoolDriver(c)
 	if err != nil {
+		if pdConfigRejected(c, err) {
+			return // no verdict: the configuration does not exist
+		}
 		panic(fmt.Sprintf("c05: cannot build %s: %v", cs.Variant, err))
 	}
 	w := &c05world{c: c, d: d, caps: d.Caps(), units: d.Units(), uidx: map[string]int{}, unitEv: map[string]string{}, subs: map[int]*c05sub{}, diverged: map[string]bool{},
@@ -509,6 +512,11 @@ func c05Run(c *sim.Ctx) {
 				w.given(id, v, fmt.Sprintf("subscriber %d", id))
 			} else if fired {
 				after = "failed-alloc"
+				if s != nil && s.val != "" {
+					// a re-ask is a renewal; one that failed on the injected store
+					// error may or may not have extended the lease (as a failed Renew)
+					s.hi = w.epoch
+				}
 				if wasSure {
 					s.ev = "failed-reask"
 					after = "failed-reask"
